@@ -39,6 +39,7 @@ const (
 	OpYield
 	OpCopy
 	OpSub
+	OpForward
 )
 
 // Op is one step of a handler script.
@@ -99,6 +100,8 @@ func (o Op) String() string {
 		return "Copy"
 	case OpSub:
 		return fmt.Sprintf("SubRequest(%s %q)", o.S, o.S2)
+	case OpForward:
+		return fmt.Sprintf("Forward(%q)", o.S2)
 	}
 	return "?"
 }
@@ -159,6 +162,7 @@ type Ctx interface {
 	Yield()                         // scheduling point (deterministic scheduler of C03); no-op in the model
 	CopyForLater()                  // c.Copy() kept beyond the request (for a background job); no-op in the model
 	Sub(method, path string) string // a nested request served by the same router from inside a handler
+	Forward(path string)            // internal forward: the same context is dispatched again for another path (Router.HandleContext)
 }
 
 // Trace is the event list of one request.
@@ -300,6 +304,10 @@ func Run(s *Script, c Ctx, tr *Trace) {
 			c.CopyForLater()
 		case OpSub:
 			tr.Add("  %s nested request %s %q ->\n%s", s.Name, o.S, o.S2, indent(c.Sub(o.S, o.S2)))
+		case OpForward:
+			tr.Add("  %s forwards to %q", s.Name, o.S2)
+			c.Forward(o.S2)
+			tr.Add("  %s forward returned", s.Name)
 		}
 	}
 	if !s.Silent {
@@ -329,6 +337,11 @@ type RCtx struct {
 	Y     func()
 	St    *ReqState
 	SubFn func(method, path string) string
+}
+
+func (r *RCtx) Forward(path string) {
+	r.C.Req.URL.Path = path
+	r.C.Router().HandleContext(r.C)
 }
 
 func (r *RCtx) Sub(method, path string) string {
@@ -394,6 +407,14 @@ type MCtx struct {
 	NoAbt   bool
 	reqVals map[string]string
 	SubFn   func(method, path string) string
+	FwdFn   func(m *MCtx, path string)
+}
+
+func (m *MCtx) Forward(path string) {
+	m.Request.URL.Path = path
+	if m.FwdFn != nil {
+		m.FwdFn(m, path)
+	}
 }
 
 func (m *MCtx) Sub(method, path string) string {
